@@ -18,7 +18,10 @@ CONSTANTS Mtypes, Tests, Tries,  \* values of the type / tests / tries fields th
                                  \* shifted by one because a TLC cfg cannot hold negative numbers)
           MaxLines,              \* longest file
           ReqVals,               \* min, prefer, max each range over this set (inverted triples included)
-          FixMinBound            \* TRUE: first loop also requires b >= min (the repair)
+          FixMinBound,           \* TRUE: first loop also requires b >= min (the repair)
+          MaxFiles,              \* files read one after the other into the SAME pack (1 = a pack reads one file)
+          CacheSizes             \* seeded design error: get_modulus keeps the sorted size list of its first call
+                                 \* and read_file() does not drop it
 
 LineUniverse == {[mtype |-> m, tests |-> t, tries |-> r, size |-> s, bits |-> s + d - 1] :
                     m \in Mtypes, t \in Tests, r \in Tries, s \in Sizes, d \in Deltas}
@@ -66,14 +69,19 @@ VARIABLES file,      \* the moduli file being read
           discarded, \* line indices weeded out
           req,       \* the request served, or <<>> before get_modulus
           status,    \* "reading" | "offered" | "no_moduli" (get_modulus raised "no moduli available")
-          offer      \* the groups of the chosen size (get_modulus returns a random one of them)
-vars == <<file, n, pack, discarded, req, status, offer>>
+                     \* | "key_error" (the chosen size is not in the pack: only with CacheSizes)
+          offer,     \* the groups of the chosen size (get_modulus returns a random one of them)
+          cache,     \* the size list get_modulus remembered ({} = none); used only when CacheSizes
+          nfiles,    \* files read into this pack so far
+          prev       \* the earlier rounds on this pack: Seq(<<file, request>>)
+vars == <<file, n, pack, discarded, req, status, offer, cache, nfiles, prev>>
 
 RECURSIVE Files(_)
 Files(k) == IF k = 0 THEN {<<>>} ELSE Files(k - 1) \cup {Append(f, l) : f \in Files(k - 1), l \in LineUniverse}
 
 Init == /\ file \in Files(MaxLines)
         /\ n = 0 /\ pack = <<>> /\ discarded = {} /\ req = <<>> /\ status = "reading" /\ offer = {}
+        /\ cache = {} /\ nfiles = 1 /\ prev = <<>>
 
 ParseModulus ==
     /\ n < Len(file) /\ status = "reading"
@@ -86,17 +94,26 @@ ParseModulus ==
               /\ UNCHANGED discarded
          ELSE /\ discarded' = discarded \cup {n + 1}
               /\ UNCHANGED pack
-    /\ UNCHANGED <<file, req, status, offer>>
+    /\ UNCHANGED <<file, req, status, offer, cache, nfiles, prev>>
 
 GetModulus(r) ==
     /\ n = Len(file) /\ status = "reading"
     /\ req' = r
-    /\ status' = IF DOMAIN pack = {} THEN "no_moduli" ELSE "offered"
-    /\ offer' = IF DOMAIN pack = {} THEN {}
-                ELSE pack[ChosenBits(DOMAIN pack, r[1], r[2], r[3], FixMinBound)]
-    /\ UNCHANGED <<file, n, pack, discarded>>
+    /\ LET sizes  == IF CacheSizes /\ cache # {} THEN cache ELSE DOMAIN pack     \* sorted(self.pack.keys())
+           chosen == ChosenBits(sizes, r[1], r[2], r[3], FixMinBound)
+       IN  /\ cache' = IF cache = {} THEN DOMAIN pack ELSE cache
+           /\ status' = IF sizes = {} THEN "no_moduli" ELSE IF chosen \in DOMAIN pack THEN "offered" ELSE "key_error"
+           /\ offer' = IF sizes # {} /\ chosen \in DOMAIN pack THEN pack[chosen] ELSE {}
+    /\ UNCHANGED <<file, n, pack, discarded, nfiles, prev>>
 
-Next == ParseModulus \/ \E r \in Requests : GetModulus(r)
+\* read_file() on a pack that has already served a request: the pack starts again from the new file
+ReadFile(f) ==
+    /\ status # "reading" /\ nfiles < MaxFiles
+    /\ prev' = Append(prev, <<file, req>>)
+    /\ file' = f /\ n' = 0 /\ pack' = <<>> /\ discarded' = {} /\ req' = <<>> /\ status' = "reading" /\ offer' = {}
+    /\ nfiles' = nfiles + 1 /\ UNCHANGED cache
+
+Next == ParseModulus \/ (\E r \in Requests : GetModulus(r)) \/ (\E f \in Files(MaxLines) : ReadFile(f))
 Spec == Init /\ [][Next]_vars
 
 (* ---- properties ---- *)
@@ -107,6 +124,9 @@ NeverInvalid     == Offered => \A i \in offer : Valid(file[i])                  
 HonoursRange     == Offered => offer \subseteq Acceptable(file, req[1], req[2], req[3])   \* P: the selection rule
 NoModuliOnlyWhenEmpty == (status = "no_moduli") <=> (req # <<>> /\ ValidIdx(file) = {})
 OfferNonEmpty    == Offered => offer # {}
+NoKeyError       == status # "key_error"           \* the size get_modulus settles on is one the pack has
+\* spec -> code replay of whole histories on one pack (MaxFiles > 1): one CASE per finished last round
+EmitHistory == (req # <<>> /\ nfiles = MaxFiles) => PrintT(<<"HIST", ToString(Append(prev, <<file, req>>))>>)
 \* spec -> code replay: one CASE per finished behaviour
 Emit == (req # <<>>) => PrintT(<<"CASE", file, req, status, offer,
                                  IF Offered THEN Acceptable(file, req[1], req[2], req[3]) ELSE {}>>)
